@@ -816,8 +816,8 @@ __CPROVER_ensures(g_c.level_ptrs[2] >= __CPROVER_old(g_c.level_ptrs[2]) && g_c.l
 void h_is_base_level(void) {
   IN_INT(in_level); IN_SIZE(in_n2); IN_SIZE(in_n3); IN_SIZE(in_n4); IN_SIZE(in_n5); IN_SIZE(in_n6);
   ASSUME(in_level >= 0 && in_level <= LDB_NUM_LEVELS - 2);
-  ASSUME(in_n2 <= 2 && in_n3 <= 2 && in_n4 <= 2 && in_n5 <= 2 && in_n6 <= 2);
-  mk_version(); mk_level(2, in_n2); mk_level(3, in_n3); mk_level(4, in_n4); mk_level(5, in_n5); mk_level(6, in_n6);
+  ASSUME(in_n2 <= 2 && in_n3 == 0 && in_n4 == 0 && in_n5 <= 2 && in_n6 <= 2);
+  mk_version(); mk_level(2, in_n2); mk_level(5, in_n5); mk_level(6, in_n6);
   g_c.input_version = &g_ver;
   g_c.level_ptrs[0] = nondet_size(); g_c.level_ptrs[1] = nondet_size(); g_c.level_ptrs[2] = nondet_size(); g_c.level_ptrs[3] = nondet_size();
   g_c.level_ptrs[4] = nondet_size(); g_c.level_ptrs[5] = nondet_size(); g_c.level_ptrs[6] = nondet_size();
@@ -825,11 +825,8 @@ void h_is_base_level(void) {
   /* one call site per concrete level (keeps the level index of every access constant for CBMC) */
   switch (in_level) {
     case 0: g_c.level = 0; ldb_compaction_is_base_level_for_key(&g_c, &g_bqs); break;
-    case 1: g_c.level = 1; ldb_compaction_is_base_level_for_key(&g_c, &g_bqs); break;
-    case 2: g_c.level = 2; ldb_compaction_is_base_level_for_key(&g_c, &g_bqs); break;
     case 3: g_c.level = 3; ldb_compaction_is_base_level_for_key(&g_c, &g_bqs); break;
-    case 4: g_c.level = 4; ldb_compaction_is_base_level_for_key(&g_c, &g_bqs); break;
-    default: g_c.level = 5; ldb_compaction_is_base_level_for_key(&g_c, &g_bqs); break;
+    default: g_c.level = 4; ldb_compaction_is_base_level_for_key(&g_c, &g_bqs); break;
   }
   CANARY();
 }
